@@ -137,7 +137,16 @@ where
 
     // Atomically create the file only if it doesn't exist.
     // This uses O_CREAT | O_EXCL on Unix, which is atomic.
-    match OpenOptions::new().write(true).create_new(true).open(path) {
+    let mut options = OpenOptions::new();
+    options.write(true).create_new(true);
+    // Create the file owner-only from the start: with the default mode (0666 & !umask) it
+    // would be group/world accessible until the chmod below.
+    #[cfg(unix)]
+    {
+        use std::os::unix::fs::OpenOptionsExt;
+        options.mode(0o600);
+    }
+    match options.open(path) {
         Ok(_file) => {
             // File was created by us - set secure permissions
             set_secure_file_permissions(path)?;
